@@ -76,7 +76,7 @@ KEYS = {
     "region": ("setup", "chip region", ["channel", "reservoir"]),
     "lut": ("calculation", "emodulus lut", ["HE-3D-FEM-22", "LE-2D-FEM-19"]),
     "med": ("calculation", "emodulus medium",
-            ["CellCarrier", "other", "water", "CellCarrier B", "0.83% mc-pbs", "honey"]),
+            ["CellCarrier", "other", "water", "CellCarrier B", "0.49% MC-PBS", "honey"]),
     "T": ("calculation", "emodulus temperature", [23.0, 25.5, 30.0]),
     "visc": ("calculation", "emodulus viscosity", [1.0, 2.5, 9.0]),
     "vm": ("calculation", "emodulus viscosity model",
@@ -86,7 +86,7 @@ KEYS = {
 }
 for _c in CT:
     KEYS[_c] = ("calculation", f"crosstalk fl{_c[2:]}", [0.0, 0.1, 0.25])
-KNOWN_MEDIA = {"CellCarrier", "water", "CellCarrier B", "0.83% mc-pbs"}
+KNOWN_MEDIA = {"CellCarrier", "water", "CellCarrier B", "0.49% MC-PBS"}
 EMOD_KEYS = ["lut", "med", "T", "visc", "vm", "px", "flow", "width", "region"]
 
 SCALAR_IN = ["area_cvx", "area_msd", "size_x", "size_y", "circ", "frame", "pos_x",
@@ -155,7 +155,7 @@ def _vidx(draw, key):
 @st.composite
 def st_op(draw):
     kind = draw(st.sampled_from(
-        ["set"] * 7 + ["del"] * 4 + ["temp"] * 3 + ["ctemp", "plug", "unplug", "filter"]
+        ["set"] * 8 + ["del"] * 3 + ["temp"] * 3 + ["ctemp", "plug", "unplug", "filter"]
         + ["read"] * 7 + ["has"] * 2 + ["features"] + ["cread"] * 3 + ["chas"]))
     if kind in ("set", "del"):
         key = draw(st.sampled_from(KEY_POOL))
@@ -178,11 +178,11 @@ def st_op(draw):
 
 @st.composite
 def st_spec(draw):
-    scen = draw(st.sampled_from(["A", "B", "C", "C", "Bother", "BotherT", "all"]))
+    scen = draw(st.sampled_from(["A", "A", "B", "C", "C", "Bother", "BotherT",
+                                 "BotherT"]))
     present = {"px", "fr", "flow", "width", "lut", "uk", "um"}
     present |= {"A": {"med", "vm"}, "B": {"visc"}, "C": {"med", "T", "vm"},
-                "Bother": {"med", "visc"}, "BotherT": {"med", "visc", "T", "vm"},
-                "all": {"med", "visc", "T", "vm"}}[scen]
+                "Bother": {"med", "visc"}, "BotherT": {"med", "visc", "T", "vm"}}[scen]
     present |= set(draw(st.sampled_from(
         [CT, CT, ["ct12", "ct21"], ["ct13", "ct31"], ["ct23", "ct32"],
          ["ct12", "ct21", "ct13", "ct31"], []])))
@@ -215,6 +215,7 @@ def st_spec(draw):
                                         ["ml_score_bbb"], []]))},
         "plug": draw(st.sampled_from([0, 0, 1, None])),
         "mask": draw(st.integers(0, 999)),
+        "warm": draw(st.lists(st.sampled_from(READ_POOL), max_size=5)),
         "ops": draw(st.lists(st_op(), min_size=1, max_size=40)),
     }
 
@@ -257,7 +258,7 @@ def make_data(spec):
     d["image_bg"] = r.integers(0, 256, (n, h, w), dtype=np.uint8)
     d["bg_off"] = np.round(r.normal(0, 2, n), 2)
     for k in (1, 2, 3):
-        d[f"fl{k}_max"] = np.round(r.uniform(0, 3000, n), 1)
+        d[f"fl{k}_max"] = r.integers(0, 3000, n).astype(float)   # uint32 in files
     d["temp"] = np.round(r.uniform(19, 31, n), 2)
     d["area_um"] = np.round(d["area_cvx"] * 0.34 ** 2 * r.uniform(0.95, 1.0, n), 3)
     d["deform"] = np.round((1 - d["circ"]) * r.uniform(0.9, 1.1, n), 5)
